@@ -217,6 +217,15 @@ func (p *Proof) SetExpected(pk *gabikeys.PublicKey, challenge, response *big.Int
 	if !proofstructure.verifyProofStructure((*proof)(p)) {
 		return errors.New("incomplete nonrevocation proof")
 	}
+	// The commitments serve as bases of the representations that are verified. They must be
+	// elements of the multiplicative group: with 0 (or another non-unit) as a base every
+	// reconstructed commitment is 0 regardless of challenge and responses, so that anybody could
+	// produce a "proof" without having a witness. (C_u is not necessarily reduced modulo n.)
+	for _, c := range []*big.Int{p.Cr, p.Cu} {
+		if c.Sign() <= 0 || new(big.Int).GCD(nil, nil, new(big.Int).Mod(c, pk.N), pk.N).Cmp(bigOne) != 0 {
+			return errors.New("nonrevocation proof commitment is not in the multiplicative group")
+		}
+	}
 	return nil
 }
 
